@@ -23,7 +23,7 @@ import (
 // pairs in the thorough tier), raw non-JSON bodies, HTTP statuses; composite sync / finalize / customize.
 
 type c13Cfg struct {
-	Mode   int  // 0 non-rolling; 1 rolling, one revision; 2 rolling, parent spec edited (two revisions, parallel hook calls); 3 finalizing
+	Mode   int // 0 non-rolling; 1 rolling, one revision; 2 rolling, parent spec edited (two revisions, parallel hook calls); 3 finalizing
 	GenSel bool
 	Strict bool
 	Target string // which hook is mutated: "sync" (or finalize in mode 3), "customize"
